@@ -246,30 +246,24 @@ impl RegExpBuilder {
     /// Build the actual regular expression using the previously given settings.
     #[pyo3(name = "build")]
     fn py_build(&mut self) -> String {
-        let regexp = self.build();
-        if self.config.is_non_ascii_char_escaped {
-            replace_unicode_escape_sequences(regexp)
-        } else {
-            regexp
-        }
+        // Escape sequences are not only created on request but also
+        // for exotic whitespace in verbose mode, so always convert them.
+        replace_unicode_escape_sequences(self.build())
     }
 }
 
 /// Replaces Rust Unicode escape sequences to Python Unicode escape sequences.
 fn replace_unicode_escape_sequences(regexp: String) -> String {
     lazy_static! {
-        static ref FOUR_CHARS_ESCAPE_SEQUENCE: Regex = Regex::new(r"\\u\{([0-9a-f]{4})\}").unwrap();
-        static ref FIVE_CHARS_ESCAPE_SEQUENCE: Regex = Regex::new(r"\\u\{([0-9a-f]{5})\}").unwrap();
+        static ref ESCAPE_SEQUENCE: Regex = Regex::new(r"\\u\{([0-9a-f]{1,6})\}").unwrap();
     }
-    let mut replacement = FOUR_CHARS_ESCAPE_SEQUENCE
-        .replace_all(&regexp, |caps: &Captures| format!("\\u{}", &caps[1]))
-        .to_string();
-
-    replacement = FIVE_CHARS_ESCAPE_SEQUENCE
-        .replace_all(&replacement, |caps: &Captures| {
-            format!("\\U000{}", &caps[1])
+    ESCAPE_SEQUENCE
+        .replace_all(&regexp, |caps: &Captures| {
+            if caps[1].len() <= 4 {
+                format!("\\u{:0>4}", &caps[1])
+            } else {
+                format!("\\U{:0>8}", &caps[1])
+            }
         })
-        .to_string();
-
-    replacement
+        .to_string()
 }
